@@ -1,10 +1,10 @@
 package main
 
 import (
-	"slices"
 	"go/ast"
 	"go/token"
 	"go/types"
+	"slices"
 	"strings"
 )
 
@@ -418,6 +418,120 @@ func ruleFIELD1(c *Ctx) {
 			}
 		}
 		c.Oblige("fields:emitted-in-declaration-order", f.Pos(), finalIdx, "the flattened fields are not finally ordered by their index path")
+		// the IsZero-method closure is installed whatever the tag says (OmitZeroStructFields can ask for it on any
+		// field), and the same-struct name conflict is checked however the name was obtained
+		mentionsField := func(gi *types.Info, e ast.Node, name string) bool {
+			found := false
+			ast.Inspect(e, func(m ast.Node) bool {
+				if sel, ok := m.(*ast.SelectorExpr); ok {
+					if fv := SelField(gi, sel); fv != nil && fv.Name() == name {
+						found = true
+					}
+				}
+				return true
+			})
+			return found
+		}
+		// conditions governing a statement: enclosing ifs, own case clause and the earlier clauses of a tagless switch
+		governing := func(g *FuncInfo, nd ast.Node) []ast.Expr {
+			var out []ast.Expr
+			for _, cc := range enclosingConds(p, g, nd) {
+				out = append(out, cc.cond)
+			}
+			var cur ast.Node = nd
+			for cur != nil && cur != ast.Node(g.Body()) {
+				par := p.Parent(g.File, cur)
+				if cc, ok := par.(*ast.CaseClause); ok {
+					if sw, ok := p.Parent(g.File, p.Parent(g.File, cc)).(*ast.SwitchStmt); ok && sw.Tag == nil {
+						for _, st := range sw.Body.List {
+							c2 := st.(*ast.CaseClause)
+							if c2.Pos() >= cc.Pos() {
+								break
+							}
+							out = append(out, c2.List...)
+						}
+					}
+				}
+				cur = par
+			}
+			return out
+		}
+		nIsZero, okIsZero, whyIsZero := 0, true, ""
+		nConf, okConf := 0, true
+		for _, g := range p.CalleeClosure(f, 2) {
+			if g.Body() == nil {
+				continue
+			}
+			gi := g.Info()
+			InspectNoLit(g.Body(), func(nd ast.Node) bool {
+				switch x := nd.(type) {
+				case *ast.AssignStmt:
+					for _, l := range x.Lhs {
+						if fv := SelField(gi, l); fv != nil && fv.Name() == "isZero" {
+							nIsZero++
+							for _, cond := range governing(g, x) {
+								if mentionsField(gi, cond, "omitzero") {
+									okIsZero = false
+									whyIsZero = "store at " + p.Position(x.Pos()) + " is governed by `" + exprString(cond) + "`"
+								}
+							}
+						}
+					}
+				case *ast.IfStmt:
+					// if j, ok := index[f.name]; ok { report }
+					as, ok := x.Init.(*ast.AssignStmt)
+					if !ok || len(as.Rhs) != 1 {
+						return true
+					}
+					ix, ok := ast.Unparen(as.Rhs[0]).(*ast.IndexExpr)
+					if !ok {
+						return true
+					}
+					mt, ok := gi.TypeOf(ix.X).Underlying().(*types.Map)
+					if !ok {
+						return true
+					}
+					if b, ok := mt.Key().Underlying().(*types.Basic); !ok || b.Kind() != types.String {
+						return true
+					}
+					if fv := SelField(gi, ix.Index); fv == nil || fv.Name() != "name" {
+						return true
+					}
+					reports := false
+					ast.Inspect(x.Body, func(m ast.Node) bool {
+						if a2, ok := m.(*ast.AssignStmt); ok {
+							for _, l := range a2.Lhs {
+								if t := gi.TypeOf(l); t != nil && strings.HasSuffix(t.String(), "SemanticError") {
+									reports = true
+								}
+							}
+						}
+						return true
+					})
+					if !reports {
+						return true
+					}
+					nConf++
+					conds := append(governing(g, x), x.Cond)
+					for _, cond := range conds {
+						if mentionsField(gi, cond, "hasName") {
+							okConf = false
+						}
+					}
+				}
+				return true
+			})
+		}
+		if nIsZero == 0 {
+			c.Undecide("json.makeStructFields/isZero", "no store into structField.isZero")
+		} else {
+			c.Oblige("fields:iszero-method-installed-for-every-field", f.Pos(), okIsZero, "the IsZero-method test is only installed for fields tagged omitzero ("+whyIsZero+"): under OmitZeroStructFields the other fields are judged by reflect's zero test instead of their IsZero method")
+		}
+		if nConf == 0 {
+			c.Undecide("json.makeStructFields/name-conflict", "no same-struct name conflict check found")
+		} else {
+			c.Oblige("fields:name-conflict-checked-for-every-field", f.Pos(), okConf, "the same-struct JSON name conflict is only checked for fields with an explicit name: a tagged field and a later untagged Go field of that name are silently merged")
+		}
 		// both lookup indexes cover every flattened field: each store into byActualName / byFoldedName that sits in a
 		// loop over the flattened fields is a direct statement of the loop body and no branch statement precedes it
 		for _, idxName := range []string{"byActualName", "byFoldedName"} {
